@@ -23,7 +23,8 @@ from ..core import pool_map
 MODULE = "modem/Ofdm.tla"
 DEVS = ["FreqResponseTruncates", "DcNotSkipped", "MapOffByOne", "CpFromHead", "ScaleNotInverted", "SymbolsFloor",
         "MemoryExceedsCp", "MemoNumbersByUsedOnly", "RejectedSetHalfUpdates", "PadKeepsOldData", "DemodScalesArgument",
-        "ScaleWrapsNarrowInt", "EqSkipsTinyResponse", "ModulateInBlocks", "EqMemoByIdentity"]
+        "ScaleWrapsNarrowInt", "EqSkipsTinyResponse", "ModulateInBlocks", "EqMemoByIdentity",
+        "DemodZeroesLastPadding", "MergeNeighboursOnly"]
 INVS = ["ObjectCoherent", "ArgumentsUnchanged", "EarlierResultsUnchanged", "ScaleLaw", "DiscLaw", "LongLaw", "IndexMap", "ParamLaw", "PadLaw", "LenLaw", "PrefixIsTail", "DcAndGuardsEmpty", "CircularUnderCP",
         "WindowAligned", "UnmapReadsMap", "FreqIsHTimesX", "RoundTrip", "OneTapExact"]
 # which laws refute which deviation (TLC stops at the first violated invariant of the list it finds)
@@ -44,7 +45,10 @@ DEV_REFUTED_BY = {
     "EqSkipsTinyResponse": ({(4, 1, 4)}, {"OneTapExact"}),       # run with the channel gains 1e-7 .. 1e7
     "ModulateInBlocks": ({(8, 2, 6, 65537), (64, 16, 52, 70001)}, {"LongLaw"}),      # long-input star cases
     "EqMemoByIdentity": ({(4, 1, 4), (8, 2, 4)}, {"OneTapExact"}),                   # histories with a realisation per use
+    "DemodZeroesLastPadding": ({(4, 1, 4), (8, 2, 4)}, {"RoundTrip"}),               # re-demodulation of an earlier frame
+    "MergeNeighboursOnly": ({(8, 3, 6)}, {"DiscLaw"}),                               # raw profiles in every listing order
 }
+ORDERS = ["sorted", "reversed", "split"]
 PTYPES = ["int", "int8", "uint8", "int16", "uint16", "int32", "uint32", "int64", "uint64"]
 # The UNSIGNED scalar types broke the code as found (index map and prefix use unary minus / negative numbers on the
 # parameters); repaired in /repo (3fd82b5, notes/fixes/C02-integer-parameters.patch), so every type is judged.  The
@@ -53,7 +57,7 @@ JUDGED_PTYPES = PTYPES
 PENDING_PTYPES = []
 GAINS = list(range(-7, 8))
 HIST_DEVS = {"MemoNumbersByUsedOnly": "none", "RejectedSetHalfUpdates": "none", "PadKeepsOldData": "none",
-             "EqMemoByIdentity": "one"}      # deviation -> tap layouts needed to see it
+             "EqMemoByIdentity": "one", "DemodZeroesLastPadding": "none"}      # deviation -> tap layouts needed to see it
 # the quick history alphabet: the same used count under the all-carriers branch and under the centred branch at two fft
 # sizes (both orders occur), a change of every parameter, the smallest size; rejected calls: odd used, used > fft (both
 # with a valid <<fft, cp>> that differs from most current ones), cp > fft, used = 0
@@ -61,7 +65,7 @@ HIST_DEVS = {"MemoNumbersByUsedOnly": "none", "RejectedSetHalfUpdates": "none", 
 HIST_VALID = [(4, 1, 4), (8, 2, 4), (8, 3, -1), (4, 0, 2), (2, 2, 2)]
 HIST_BAD = [(8, 1, 3), (4, 2, 6), (3, 1, -1), (2, 1, 0)]
 ROUTES = ["arrays", "profile", "discrete"]
-ACTIONS = ["LongStar", "ScaleStar", "Construct", "SetParameters", "UseLive", "StartLive", "Start", "MapStar", "ParamStar", "Pad", "Map", "Ifft", "AddCP", "Loop", "Transmit", "Crop", "RemoveCP",
+ACTIONS = ["StartRe", "LongStar", "ScaleStar", "Construct", "SetParameters", "UseLive", "StartLive", "Start", "MapStar", "ParamStar", "Pad", "Map", "Ifft", "AddCP", "Loop", "Transmit", "Crop", "RemoveCP",
            "Fft", "Unmap", "Equalize"]
 TOL = 1e-9
 # 16+ JVMs run side by side (one TLC worker each): keep their GC / JIT helper threads from oversubscribing the cores
@@ -71,12 +75,12 @@ FID = "FreqResponseTruncates"
 
 def model(configs=(), mapffts=(), paramffts=(), lenmode="two", patmode="dense", ndense=1, laymode="three",
           block=False, seed=0, dev=(), emit=True, histvalid=(), histbad=(), histmax=0, histfirst=None, usemax=1,
-          ptypes=("int",), scalecases=(), gains=(0,), routes=("int",), longcases=(), ownreal=False):
+          ptypes=("int",), scalecases=(), gains=(0,), routes=("int",), longcases=(), ownreal=False, orders=("sorted",)):
     d = {k: (k in dev) for k in DEVS}
     st = lambda xs: tlc.tla(set(xs)) if xs else "{}"
     defs = {"Configs": st([tuple(c) for c in configs]), "MapFfts": st(mapffts), "ParamFfts": st(paramffts),
             "HistFirst": st([tuple(c) for c in (histvalid if histfirst is None else histfirst)]),
-            "CallTypes": tlc.tla(list(JUDGED_PTYPES)), "PTypes": st(list(ptypes)), "ScaleCases": st([tuple(c) for c in scalecases]), "LongCases": st([tuple(c) for c in longcases]), "Gains": st(list(gains)), "Routes": st(list(routes)),
+            "CallTypes": tlc.tla(list(JUDGED_PTYPES)), "PTypes": st(list(ptypes)), "ScaleCases": st([tuple(c) for c in scalecases]), "LongCases": st([tuple(c) for c in longcases]), "Gains": st(list(gains)), "Routes": st(list(routes)), "Orders": st(list(orders)),
             "HistValid": st([tuple(c) for c in histvalid]), "HistBad": st([tuple(c) for c in histbad]), "Dev": tlc.tla(d)}
     cfg = tlc.cfg_text(constants={"LenMode": tlc.tla(lenmode), "PatMode": tlc.tla(patmode), "NDense": str(ndense),
                                   "LayMode": tlc.tla(laymode), "Block": tlc.tla(bool(block)), "Seed": str(seed % 1000),
@@ -214,6 +218,7 @@ class Ledger:
         self.eqz = None       # live history: the equaliser object created right after the constructor call
         self.chans = None     # live history: channel objects kept from one use to the next
         self.use_no = 0       # live history: number of the current use
+        self.frames = {}      # live history: position of a use -> the frame it emitted (kept by the caller)
 
     def keep(self, label, res):
         self.items.append((label, res, np.array(res, copy=True)))
@@ -502,6 +507,8 @@ def check_chain(case, o=None, ledger=None):
         ledger = Ledger() if ledger is None else ledger
         ledger.use_no += 1
         o, tx, _ = run_modulator(m, o, ledger)
+        if ledger.chans is not None:
+            ledger.frames[m["input"]["id"][4][1]] = tx.copy()
     except Bad as b:
         return [(b.what, b.fid, -1)], 0
     except Exception as ex:  # the real code must not raise on a valid configuration
@@ -550,6 +557,20 @@ def _check_history(h):
                 okc += n
                 if bad:
                     return [(f"history {done}: chain on the live object: {w}", fid) for w, fid, _ in bad[:1]], okc, k
+            # PIPELINING: frames emitted by earlier uses are demodulated again on the live object, after later modulate calls
+            for rc in st.get("redemod", ()):
+                pos = rc["mod"]["input"]["re"]
+                frame = ledger.frames[rc["mod"]["input"]["id"][4][1]]
+                want = gint(rc["mod"]["pad"]["out"]["padded"])
+                try:
+                    dem = call("demodulate", o.demodulate, [frame.copy()], rc["rcv"][0]["dem"].get("req", ()), ledger)
+                except Bad as b:
+                    return [(f"history {done}: re-demodulating the frame of call {pos}: {b.what}", None)], okc, k
+                if not close(dem, want):
+                    return [(f"history {done}: RoundTrip: demodulating the frame emitted by call {pos} again, after later modulate "
+                             f"calls, no longer returns its symbols followed by zeros (demodulate must depend on its argument only)",
+                             None)], okc, k
+                okc += 1
             continue
         acc = st["call"]["out"]["accepted"]
         before = None if o is None else (o.fft_size, o.cp_size, o.num_used_subcarriers)
@@ -713,9 +734,11 @@ def chains(emitted):
         for n in range(1, len(e["hist"]) + 1):
             pk = tlc.json.dumps(e["hist"][:n])
             isuse = e["hist"][n - 1][0] == "use"
-            if pk not in calls or (isuse and len(live.get(pk, ())) != 1):
+            normal = [c for c in live.get(pk, ()) if not c["mod"]["input"].get("re", 0)]
+            if pk not in calls or (isuse and len(normal) != 1):
                 raise tlc.TlcError(f"history prefix {pk} was not emitted completely")
-            steps.append({"call": calls[pk], "chains": live[pk] if isuse else []})
+            steps.append({"call": calls[pk], "chains": normal if isuse else [],
+                          "redemod": [c for c in live.get(pk, ()) if c["mod"]["input"].get("re", 0)] if isuse else []})
         hists.append({"steps": steps})
     return out, stars, hists
 
@@ -816,12 +839,13 @@ def dev_job(job):
     if dev == "ModulateInBlocks":
         cfg, defs = model(longcases=configs, dev=[dev], emit=False)
     elif dev in HIST_DEVS:
-        cfg, defs = model(histvalid=configs, histbad=HIST_BAD[:2], histmax=3 if HIST_DEVS[dev] == "none" else 1, usemax=2,
+        cfg, defs = model(histvalid=configs, histbad=HIST_BAD[:2], histmax=1 if dev in ("EqMemoByIdentity", "DemodZeroesLastPadding", "PadKeepsOldData") else 3, usemax=2,
                           lenmode="pair", patmode="dense", laymode=HIST_DEVS[dev], dev=[dev], emit=False, ownreal=True)
     else:
         cfg, defs = model(configs=configs, mapffts=[4, 8], lenmode="two", patmode="dense", laymode="three", dev=[dev],
                           emit=False, ptypes=["int", "int8", "uint8"] if dev == "ScaleWrapsNarrowInt" else ["int"],
-                          gains=GAINS if dev == "EqSkipsTinyResponse" else [0])
+                          gains=GAINS if dev == "EqSkipsTinyResponse" else [0],
+                          routes=["arrays"] if dev == "MergeNeighboursOnly" else ["int"], orders=ORDERS)
     r = tlc.run(MODULE, cfg, defs=defs, workers=2, env=JVM_ENV)
     return dev, r.violated, r.generated, r.distinct, sorted(allowed)
 
@@ -899,7 +923,7 @@ def plan(tier, seed):
         # ONE live object: every history of 3 calls over 5 valid + 4 invalid parameter sets, full chain after every call
         # raw (quarter-sample) profiles with Ts # 1 through the three construction routes + a static library generator
         jobs.append({"label": "profiles", "w": 4e10, "model": dict(
-            configs=[(8, 3, 6), (8, 8, 8), (4, 2, 4), (16, 5, 10), (6, 3, 4), (12, 5, 10), (5, 2, 4)], routes=ROUTES, seed=seed,
+            configs=[(8, 3, 6), (8, 8, 8), (4, 2, 4), (16, 5, 10), (6, 3, 4), (12, 5, 10), (5, 2, 4)], routes=ROUTES, orders=ORDERS, seed=seed,
             lenmode="isi", patmode="dense", ndense=1, laymode="three")})
         # five OFDM symbols per call (block-static rotation i^s has period 4)
         jobs.append({"label": "long", "w": 3e10, "model": dict(configs=configs_of([2, 4]), seed=seed, lenmode="long",
@@ -928,7 +952,7 @@ def plan(tier, seed):
                                                     us=lambda N: [2, N // 2 // 2 * 2, N - N % 2])
         add("non-pow2", sorted(set(np2t)), 3, 1e3, lenmode="three", patmode="dense", ndense=2, laymode="three", block=True)
         add("profiles", configs_of([4, 8]) + [(16, 5, 10), (6, 3, 4), (12, 5, 10), (5, 2, 4), (7, 7, 6)], 4, 1e3, lenmode="two",
-            patmode="dense", ndense=1, laymode="three", routes=ROUTES, block=True)
+            patmode="dense", ndense=1, laymode="three", routes=ROUTES, orders=ORDERS, block=True)
         add("long", configs_of([2, 4, 8]), 2, 1e3, lenmode="long", patmode="dense", ndense=1, laymode="three", block=True)
         # ONE live object: every pair of calls over all 49 configurations of fft <= 8 (+ 8 rejected parameter sets), and every
         # history of 4 calls over the quick alphabet; full chain after every call
